@@ -4,4 +4,10 @@ EXTENDS Rat, Integers
 RECURSIVE IPow(_, _)
 IPow(b, k) == IF k = 0 THEN 1 ELSE b * IPow(b, k - 1)
 MonomialIntegral(k, a, b) == RNorm(IPow(b, k + 1) - IPow(a, k + 1), k + 1)
+(* half-infinite intervals (C12): integrands with a rational integral,
+     up:    f(x) = 1 / (x + 3)^m  on [a, +inf),   a > -3:   1 / ((m - 1) (a + 3)^(m - 1))
+     down:  f(x) = 1 / (3 - x)^m  on (-inf, a],   a <  3:   1 / ((m - 1) (3 - a)^(m - 1))
+   and minus that when the bounds are given in the other order *)
+HalfInfiniteDen(side, m, a) == (m - 1) * IPow(IF side = "up" THEN a + 3 ELSE 3 - a, m - 1)
+HalfInfiniteIntegral(side, m, a, swapped) == RNorm(IF swapped = 1 THEN -1 ELSE 1, HalfInfiniteDen(side, m, a))
 =============================================================================
